@@ -33,17 +33,32 @@ def chain_stub(ip, name):
 
 
 def sym_engine(ip, **over):
+    """an engine built by the REAL constructor (so fields a change adds or re-purposes get their constructor-time values), whose state
+    is then generalised: symbolic flags / chunk size / states, and recording stubs for the chain managers and the epoch manager"""
     c = ip.ctx
-    eng = new_obj(ip, E, tag="engine",
-                  _epoch=None, _warmup_has_ended=c.fresh("warmup_has_ended", Bool), _jitted_sample_duration=c.fresh("chunk", Int),
-                  _show_progress=False, _store_kernel_states=c.fresh("store_ks", Bool), _quantity_generators=[],
-                  _history_required_for_tuning=c.fresh("needs_history", Bool), _minimize_transition_infos=False,
-                  _kernel_states=z3.Const("kernel_states", U), _model_states=z3.Const("model_states", U), _prng_key=z3.Const("engine_key", U),
-                  _position_keys=("a",), _model=None,
-                  _position_chain=chain_stub(ip, "position_chain"), _transition_info_chain=chain_stub(ip, "transition_info_chain"),
-                  _kernel_state_chain=chain_stub(ip, "kernel_state_chain"), _quantities_chain=chain_stub(ip, "quantities_chain"),
-                  _tuning_info_chain=chain_stub(ip, "tuning_info_chain"),
-                  _epoch_manager=PyObj("manager", has_more=PyFn(lambda ip_: ip_.ctx.fresh("manager_has_more", Bool), "has_more")))
+    saved_models, saved_summ = dict(ip.models), dict(ip.summaries)
+    install_engine_models(ip)
+    ip.models["jax.jit"] = lambda ip_, f, **kw: f
+    ip.summaries[f"{EPOCH}::EpochManager.__init__"] = lambda ip_, args, kwargs: None
+    ks = [PyObj(f"ctor_kernel{i}", identifier=f"kernel_{i:02d}", position_keys=(f"p{i}",), needs_history=False,
+                init_state=PyFn(lambda ip_, *a: z3.Const("ks_init", U), "init_state")) for i in range(1)]
+    seq = ip.call(ip.repo(f"{KS}::KernelSequence"), [ks], {})
+    eng = ip.call(ip.repo(E), [], dict(seeds=z3.Const("engine_key", U), model_states=z3.Const("model_states", U), kernel_sequence=seq, epoch_configs=[],
+                                       jitted_sample_duration=c.fresh("chunk", Int), model=None, position_keys=("a",), store_kernel_states=c.fresh("store_ks", Bool),
+                                       show_progress=False))
+    ip.models.clear(); ip.models.update(saved_models)
+    ip.summaries.clear(); ip.summaries.update(saved_summ)
+    eng.tag = "engine"
+    c.ghost["key_reuse"] = None
+    c.ghost["keys_used"] = []
+    eng.f.update(_epoch=None, _warmup_has_ended=c.fresh("warmup_has_ended", Bool), _quantity_generators=[],
+                 _history_required_for_tuning=c.fresh("needs_history", Bool), _minimize_transition_infos=False,
+                 _kernel_states=z3.Const("kernel_states", U), _model_states=z3.Const("model_states", U), _prng_key=z3.Const("engine_key", U),
+                 _position_keys=("a",), _model=None,
+                 _position_chain=chain_stub(ip, "position_chain"), _transition_info_chain=chain_stub(ip, "transition_info_chain"),
+                 _kernel_state_chain=chain_stub(ip, "kernel_state_chain"), _quantities_chain=chain_stub(ip, "quantities_chain"),
+                 _tuning_info_chain=chain_stub(ip, "tuning_info_chain"),
+                 _epoch_manager=PyObj("manager", has_more=PyFn(lambda ip_: ip_.ctx.fresh("manager_has_more", Bool), "has_more")))
     eng.f.update(over)
     c.assume(eng.f["_jitted_sample_duration"] >= 1)
     return eng
@@ -380,7 +395,10 @@ def u_sample_many(ip):
     c.oblige("returned_epoch_time", new_ep.f["time"] == time0 + n)
 
 
-def ghost_kernel(ip, idx, trace):
+IDENTS = ["zeta_block", "alpha_block", "kernel_10"]  # configured order differs from the alphabetical order of the identifiers
+
+
+def ghost_kernel(ip, idx, trace, ident=None):
     rel = KER
 
     def ev(kind, ret):
@@ -391,7 +409,7 @@ def ghost_kernel(ip, idx, trace):
 
     out_t = lambda ip_, a: new_obj(ip_, f"{rel}::TransitionOutcome", info=z3.Const(f"info{idx}", U), kernel_state=ip_.uf(f"k{idx}_state_after_transition", ip_.to_U(a[1])),
                                    model_state=ip_.uf(f"k{idx}_model_state", ip_.to_U(a[0]), ip_.to_U(a[2])))  # noqa: E731
-    return PyObj(f"kernel{idx}", identifier=f"kernel_{idx:02d}", position_keys=(f"p{idx}",), needs_history=False,
+    return PyObj(f"kernel{idx}", identifier=ident if ident is not None else f"kernel_{idx:02d}", position_keys=(f"p{idx}",), needs_history=False,
                  start_epoch=ev("start_epoch", lambda ip_, a: ip_.uf(f"k{idx}_after_start", ip_.to_U(a[1]))),
                  end_epoch=ev("end_epoch", lambda ip_, a: ip_.uf(f"k{idx}_after_end", ip_.to_U(a[1]))),
                  transition=ev("transition", out_t),
@@ -401,7 +419,7 @@ def ghost_kernel(ip, idx, trace):
 
 
 def ks_unit(n):
-    @unit(f"C07.kernel_sequence.n{n}", "C07", [f"{KS}::KernelSequence.{m}" for m in ("start_epoch", "end_epoch", "transition", "tune", "end_warmup", "init_states")],
+    @unit(f"C07.kernel_sequence.n{n}", "C07", [f"{KS}::KernelSequence.{m}" for m in ("__init__", "get_kernels", "start_epoch", "end_epoch", "transition", "tune", "end_warmup", "init_states")],
           assumptions=[f"kernel count fixed to {n} in this unit (units exist for 1, 2 and 3 kernels; the code is uniform in the count)"])
     def u(ip, n=n):
         """each KernelSequence method calls every kernel exactly once, in the configured order, kernel i with key i of the split,
@@ -409,8 +427,10 @@ def ks_unit(n):
         kernel in order (states) / under the kernel's identifier (infos)."""
         c = ip.ctx
         trace = []
-        kernels = [ghost_kernel(ip, i, trace) for i in range(n)]
-        seq = new_obj(ip, f"{KS}::KernelSequence", _kernels=kernels)
+        kernels = [ghost_kernel(ip, i, trace, IDENTS[i]) for i in range(n)]
+        seq = ip.call(ip.repo(f"{KS}::KernelSequence"), [list(kernels)], {})  # the REAL constructor (identifiers not in alphabetical order)
+        gk = ip.call(method(ip, seq, "get_kernels"), [], {})
+        c.oblige("constructor_keeps_configured_order", isinstance(gk, list) and len(gk) == n and all(gk[i] is kernels[i] for i in range(n)))
         key, ms = z3.Const("key", U), z3.Const("ms", U)
         kstates = [z3.Const(f"kstate{i}", U) for i in range(n)]
         ep = sym_epoch_state(ip)
@@ -437,7 +457,8 @@ def ks_unit(n):
                     c.oblige("transition.model_state_threaded", okm)
                     c.oblige("transition.final_model_state", is_z3(res.f["model_state"]) and res.f["model_state"].eq(expect))
                     c.oblige("transition.states_in_order", all(res.f["kernel_states"][i].eq(ip.uf(f"k{i}_state_after_transition", kstates[i])) for i in range(n)))
-                    c.oblige("transition.infos_by_identifier", list(res.f["infos"].keys()) == [f"kernel_{i:02d}" for i in range(n)])
+                    c.oblige("transition.infos_by_identifier", sorted(res.f["infos"].keys()) == sorted(IDENTS[:n]) and all(
+                        ip.to_U(res.f["infos"][IDENTS[i]]).eq(z3.Const(f"info{i}", U)) for i in range(n)))
                 elif mname in ("start_epoch", "end_epoch"):
                     tag = "after_start" if mname == "start_epoch" else "after_end"
                     c.oblige(f"{mname}.states_in_order", all(res[i].eq(ip.uf(f"k{i}_{tag}", kstates[i])) for i in range(n)))
@@ -535,3 +556,52 @@ def u_init_flag(ip):
     env, lines2, sig = exec_slice(ip, key, env_vars, assigns_attr("_epoch"), assigns_attr("_epoch"), self_obj=eng)
     c.oblige("no_active_epoch_initially", eng.f.get("_epoch", 0) is None)
     c.oblige("single_assignment_of_flag_in_init", sum(1 for n in ast.walk(ip.repo(key).node) if isinstance(n, ast.Attribute) and n.attr == "_warmup_has_ended" and isinstance(n.ctx, ast.Store)) == 1)
+
+
+def engine_init_unit(uid, prop):
+    @unit(uid, prop, [f"{E}.__init__", f"{KS}::KernelSequence.__init__", "liesel/goose/chain.py::EpochChainManager.__init__", f"{EPOCH}::EpochManager.__init__"],
+          summaries=[f"{E}._split_prng_key_one", "KernelSequence.init_states (C10.init_and_quantity_keys)"],
+          assumptions=["A-JIT / A-VMAP: jax.jit(f) = f, vmap(f)(xs)[c] = f(xs[c])", "two kernels; all four combinations of their needs_history flags; schedule of symbolic length"])
+    def u(ip):
+        """the REAL Engine constructor (whole body): a new engine has not ended warmup and has no active epoch; tuning history is requested
+        iff AT LEAST ONE kernel needs it (whatever its place in the sequence); by default every kernel's position keys are tracked, in
+        kernel order, and a given non-empty selection is used as is; positions and generated quantities are stored thinned, transition
+        infos and kernel states are not; the kernel states are initialised from one fresh engine draw; the schedule goes through the epoch
+        manager; the kernel sequence is the one given."""
+        c = ip.ctx
+        install_engine_models(ip)
+        ip.models["jax.jit"] = lambda ip_, f, **kw: f
+        ip.summaries[f"{EPOCH}::EpochManager.__init__"] = lambda ip_, args, kwargs: args[0].f.__setitem__("_configs", ("managed", args[1] if len(args) > 1 else kwargs.get("configs")))
+        cfgs = z3.Const("epoch_configs", U)
+        for h0, h1 in ((True, False), (False, True), (False, False), (True, True)):
+            for given in (None, ["q", "p1"], []):
+                trace = []
+                ks = [ghost_kernel(ip, i, trace, IDENTS[i]) for i in range(2)]
+                ks[0].attrs["needs_history"], ks[1].attrs["needs_history"] = h0, h1
+                seq = ip.call(ip.repo(f"{KS}::KernelSequence"), [list(ks)], {})
+                eng = ip.call(ip.repo(E), [], dict(seeds=z3.Const("seeds", U), model_states=z3.Const("model_states", U), kernel_sequence=seq, epoch_configs=cfgs,
+                                                   jitted_sample_duration=c.fresh("chunk", Int), model=PyObj("model"), position_keys=given, store_kernel_states=c.fresh("store", Bool)))
+                tag = f".h{int(h0)}{int(h1)}." + ("default" if given is None else "given" if given else "empty")
+                if given is None:
+                    c.oblige("history_requested_iff_some_kernel_needs_it" + tag[:4], ip.truth(eng.f["_history_required_for_tuning"]) is (h0 or h1))
+                if (h0, h1) != (True, False):
+                    continue
+                c.oblige("warmup_not_ended_no_active_epoch" + tag, ip.truth(eng.f["_warmup_has_ended"]) is False and eng.f["_epoch"] is None)
+                if given:
+                    c.oblige("given_selection_tracked" + tag, list(eng.f["_position_keys"]) == ["q", "p1"])
+                elif given is None:
+                    c.oblige("default_tracks_every_kernel_key_in_kernel_order" + tag, list(eng.f["_position_keys"]) == ["p0", "p1"])
+                thin = lambda ch: ip.truth(ch.f["_apply_thinning"])  # noqa: E731
+                c.oblige("positions_and_quantities_thinned_infos_and_kernel_states_not" + tag, thin(eng.f["_position_chain"]) is True and thin(eng.f["_quantities_chain"]) is True
+                         and thin(eng.f["_transition_info_chain"]) is False and thin(eng.f["_kernel_state_chain"]) is False)
+                c.oblige("four_distinct_chain_managers" + tag, len({id(eng.f[n]) for n in ("_position_chain", "_quantities_chain", "_transition_info_chain", "_kernel_state_chain")}) == 4)
+                inits = [t for t in trace if t[0] == "init_state"]
+                c.oblige("kernel_states_initialised_once_per_kernel_from_a_fresh_engine_draw" + tag, [t[1] for t in inits] == [0, 1] and all(
+                    is_z3(t[2][0]) and "split_key" in str(t[2][0]) for t in inits) and ip.to_U(inits[0][2][1]).eq(z3.Const("model_states", U)))
+                c.oblige("schedule_goes_through_epoch_manager" + tag, eng.f["_epoch_manager"].f.get("_configs") == ("managed", cfgs))
+                c.oblige("kernel_sequence_and_states_installed" + tag, eng.f["_kernel_sequence"] is seq and ip.to_U(eng.f["_model_states"]).eq(z3.Const("model_states", U))
+                         and ip.to_U(eng.f["_prng_key"]).eq(z3.Const("seeds", U)))
+    return u
+
+
+engine_init_unit("C07.engine_init", "C07")
